@@ -3,6 +3,7 @@ import json
 import numpy as np
 
 from harness.proj import rat_close, relayout
+from checks import binding
 from harness.core import Machinery
 
 LEVEL = "model_checking"
@@ -15,7 +16,7 @@ def _f(r):
 
 
 def spec_to_code(ctx, arm, cfg):
-    res = ctx.tlc("ARModelDump", cfg, timeout=3000, heap="8g")
+    res = ctx.tlc("ARModelDump", cfg, workers=16, timeout=3000, heap="8g")
     if res.violated:
         raise Machinery("ARModel.tla violates its contract: %s" % res.violated)
     n = 0
@@ -150,10 +151,11 @@ def code_to_spec(ctx, arm, ncases):
     with open(path, "w") as f:
         for r in recs:
             f.write(json.dumps(r) + "\n")
-    res = ctx.tlc("ARModelTrace", "MC_ARModelTrace.cfg", workers=1, timeout=3000, heap="6g", stack="1000m",
+    res = ctx.tlc("ARModelTrace", "MC_ARModelTrace.cfg", timeout=3000, heap="6g", stack="1000m",
                   env={"TRACE_FILE": str(path)})
     if not res.tuples("VALIDATED"):
         raise Machinery("ARModelTrace did not complete:\n" + res.out[-2500:])
+    ctx.binding_demo("ARModelTrace", "MC_ARModelTrace.cfg", path, binding.armodel, timeout=3000, heap="6g", stack="1000m")
     for line in res.tuples("REJECT"):
         parts = line.strip("<>").split(",")
         r = recs[int(parts[1]) - 1]
